@@ -1,6 +1,7 @@
 package props
 
 import (
+	"golang.org/x/exp/constraints"
 	"pipelined.dev/signal"
 	"verifharness/vf"
 )
@@ -191,4 +192,52 @@ func imax(a, b int) int {
 		return a
 	}
 	return b
+}
+
+// c19conv: two goroutines use one shared buffer as a conversion source at the same time, each into its own destination.
+func c19conv[S, D signal.SignalTypes](conv func(*signal.Buffer[S], *signal.Buffer[D]) int) {
+	C := vf.Pick("C", 1, vf.Param("MaxC", 2))
+	K := vf.Pick("K", 1, vf.Param("MaxK", 2))
+	base := allocAny[S](C, K, "base")
+	s, e := window("w", K)
+	src := base.Slice(s, e)
+	d1 := signal.Alloc[D](signal.Allocator{Channels: C, Length: K, Capacity: K})
+	d2 := signal.Alloc[D](signal.Allocator{Channels: C, Length: K, Capacity: K})
+	k := vf.IntRange("k", 0, base.Len()-1)
+	before := base.Sample(k)
+	n1, n2 := 0, 0
+	vf.Par(
+		func() { n1 = conv(src, d1) },
+		func() { n2 = conv(src, d2) },
+	)
+	vf.Cover("joined")
+	vf.Assert("source-untouched", vf.SameBits(base.Sample(k), before))
+	seq := signal.Alloc[D](signal.Allocator{Channels: C, Length: K, Capacity: K})
+	n := conv(src, seq)
+	j := vf.IntRange("j", 0, seq.Len()-1)
+	vf.Assert("same-as-sequential", n1 == n && n2 == n && vf.SameBits(d1.Sample(j), seq.Sample(j)) && vf.SameBits(d2.Sample(j), seq.Sample(j)))
+}
+
+func C19_Conv_FloatAsFloat[S, D constraints.Float]() { c19conv[S, D](signal.FloatAsFloat[S, D]) }
+func C19_Conv_FloatAsSigned[S constraints.Float, D constraints.Signed]() {
+	c19conv[S, D](signal.FloatAsSigned[S, D])
+}
+func C19_Conv_FloatAsUnsigned[S constraints.Float, D constraints.Unsigned]() {
+	c19conv[S, D](signal.FloatAsUnsigned[S, D])
+}
+func C19_Conv_SignedAsFloat[S constraints.Signed, D constraints.Float]() {
+	c19conv[S, D](signal.SignedAsFloat[S, D])
+}
+func C19_Conv_SignedAsSigned[S, D constraints.Signed]() { c19conv[S, D](signal.SignedAsSigned[S, D]) }
+func C19_Conv_SignedAsUnsigned[S constraints.Signed, D constraints.Unsigned]() {
+	c19conv[S, D](signal.SignedAsUnsigned[S, D])
+}
+func C19_Conv_UnsignedAsFloat[S constraints.Unsigned, D constraints.Float]() {
+	c19conv[S, D](signal.UnsignedAsFloat[S, D])
+}
+func C19_Conv_UnsignedAsSigned[S constraints.Unsigned, D constraints.Signed]() {
+	c19conv[S, D](signal.UnsignedAsSigned[S, D])
+}
+func C19_Conv_UnsignedAsUnsigned[S, D constraints.Unsigned]() {
+	c19conv[S, D](signal.UnsignedAsUnsigned[S, D])
 }
